@@ -9,11 +9,12 @@
 (*   FixFeedback - ReceiveFeedback does Load + CompareAndSwap instead of an unconditional Swap  *)
 EXTENDS Integers, Sequences, FiniteSets, TLC
 
-CONSTANTS Max, Ids, Callers, FixFreeze, FixFeedback
+CONSTANTS Max, Ids, Callers, FixFreeze, FixFeedback,
+          InputCap     \* capacity of the input channel: Max in the code (a smaller one lets feedback block, seeded as C12 r4-m1)
 
 VARIABLES tokens,      \* tokens in use (len(tokenPool))
           table,       \* ids in the state table
-          input,       \* buffered input channel (capacity Max)
+          input,       \* buffered input channel (capacity InputCap = Max)
           delivered,   \* ids handed to the output channel, in order (consumer always reads)
           ctxDone, frozen, inputClosed, crashed,
           runpc,       \* [st |-> "idle" | "hold" | "exited", id |-> held id]
@@ -68,7 +69,7 @@ InsertStore(c) ==
 InsertSend(c) ==
   /\ pc[c] = "ins.send"
   /\ IF inputClosed THEN crashed' = TRUE /\ UNCHANGED <<input, pc, res>>     \* send on closed channel
-     ELSE /\ Len(input) < Max /\ input' = Append(input, op[c].id) /\ Return(c, "nil") /\ UNCHANGED crashed
+     ELSE /\ Len(input) < InputCap /\ input' = Append(input, op[c].id) /\ Return(c, "nil") /\ UNCHANGED crashed
   /\ UNCHANGED <<tokens, table, delivered, ctxDone, frozen, inputClosed, runpc, op>>
 
 \* ---- ReceiveFeedback
@@ -89,7 +90,7 @@ FeedbackSelect(c) ==
   /\ \/ ctxDone /\ Return(c, "shutdown") /\ UNCHANGED <<input, crashed>>
      \/ Frozen /\ Return(c, "frozen") /\ UNCHANGED <<input, crashed>>
      \/ inputClosed /\ crashed' = TRUE /\ UNCHANGED <<input, pc, res>>
-     \/ ~inputClosed /\ Len(input) < Max /\ input' = Append(input, op[c].id) /\ Return(c, "nil") /\ UNCHANGED crashed
+     \/ ~inputClosed /\ Len(input) < InputCap /\ input' = Append(input, op[c].id) /\ Return(c, "nil") /\ UNCHANGED crashed
   /\ UNCHANGED <<tokens, table, delivered, ctxDone, frozen, inputClosed, runpc, op>>
 
 \* ---- MarkAsFinished
